@@ -159,6 +159,44 @@ Definition build_stack (cfg : config) : option (list node) :=
   | s => Some s
   end.
 
+(* ---- compile_main: the index URLs handed to build_repo ---- *)
+(* OrderedDict(zip(cli, repeat(None))); for url in file: d[url] = None; list(d):
+   first occurrences, in order of first insertion *)
+Fixpoint dedup (l : list string) : list string :=
+  match l with
+  | [] => []
+  | x :: r => x :: filter (fun y => negb (String.eqb x y)) (dedup r)
+  end.
+
+Definition merge_urls (cli file : list string) : list string := dedup (cli ++ file).
+
+Record cmdline := mkCmd {
+  cl_index : list string;          (* --index-url on the command line, in order *)
+  cl_extra : list string;          (* --extra-index-url on the command line *)
+  fl_index : list string;          (* --index-url lines of the requirements files, in file order *)
+  fl_extra : list string;
+  has_file_options : bool          (* extra_parameters is not empty *)
+}.
+
+(* (T1) the merge block sits under `if extra_parameters:`; without option lines the command
+   line lists go to build_repo untouched (duplicates included) *)
+Definition effective_index (c : cmdline) : list string :=
+  if has_file_options c then merge_urls (cl_index c) (fl_index c) else cl_index c.
+Definition effective_extra (c : cmdline) : list string :=
+  if has_file_options c then merge_urls (cl_extra c) (fl_extra c) else cl_extra c.
+
+(* what is behind a URL: its pages, as an index repository (unknown URL: an empty index) *)
+Definition lookup_index (table : list (string * repository)) (url : string) : repository :=
+  match List.find (fun ur => String.eqb (fst ur) url) table with
+  | Some ur => snd ur
+  | None => mkRepo KIndex 0%N [] []
+  end.
+
+Definition config_of_cmdline (c : cmdline) (sols srcs fls : list repository)
+    (table : list (string * repository)) (default : repository) (no_index : bool) : config :=
+  mkCfg sols srcs fls (map (lookup_index table) (effective_index c)) default
+        (map (lookup_index table) (effective_extra c)) no_index.
+
 (* ---- PooledCandidateMultiRepository.get_candidates (listing only: get_dist never calls it) ---- *)
 Definition tag_pooled (idx : nat) (c : cand) : cand :=
   mkCand (cname c) (ver c) (ckind c) (usable c) (readable c) (Z.of_nat idx :: extra c) (tagscore c) (cfile c).
